@@ -126,6 +126,7 @@ static std::set<std::string> valid_tokens() {
   return s;
 }
 
+static std::string it_mn(int host) { return host == 0 ? "mov" : host == 1 ? "lea" : "vmovdqu"; }
 void prop_c10(hz::Ctx &ctx) {
   hz::Rng rng(ctx.seed ^ 0xc10);
   bool allp = true;   // every placement x mode (nine) in both tiers; thorough adds seeds/byte values
@@ -218,9 +219,9 @@ void prop_c10(hz::Ctx &ctx) {
     for (auto sp : {"rsp", "esp"}) { exprs.push_back({"sp-base-and-index", std::string("[") + sp + "+" + sp + "]"}); exprs.push_back({"sp-base-and-index", std::string("[") + sp + "+" + sp + "+8]"}); exprs.push_back({"sp-base-and-index", std::string("[") + sp + "+" + sp + "-0x80]"}); }
     for (auto e : {"[rax", "[rax+8", "[rax+rbx*2", "[rax+rbx*2+8", "[0x10", "[2*rax", "[r8+r9"}) exprs.push_back({"unclosed-bracket", e});
     // expressions outside the documented shapes [base + index*scale +- offset], [base + scale*index +- offset], [scale*index +- offset], [constant]
-    for (auto e : {"[]", "[*]", "[+]", "[-]", "[*rcx]", "[*rcx+8]", "[rcx*]", "[rax+]", "[rax-]", "[+rax]", "[-rax]", "[rax++8]", "[rax--8]", "[rax-+8]", "[rax+rbx+rcx]", "[rax+rbx+rcx+8]", "[rax+8+8]", "[rax+8-8]", "[8+rax]", "[0x10+rax+rbx]",
-                   "[2*rax+rbx]", "[rax*2+rbx]", "[rax*2*2]", "[2*2*rax]", "[rax+rbx*2*2]", "[rax+2*rbx*2]", "[rax+rbx*2+1*rcx]", "[rax+0x]", "[rax+12ab]", "[rax+0x12g]", "[0x]", "[12ab]", "[rax]]", "[[rax]", "[rax+[rbx]]", "[rax,rbx]", "[rax+rbx*]", "[rax+*rbx]", "[rax+r9*+8]",
-                   "[rax-rbx]", "[rax+rbx-rcx]", "[rax+2*]", "[rax+*2]", "[1*]", "[rax+8*]", "[eax+ebx+ecx]", "[r8d+]", "[-eax]", "[esp+8+8]"}) exprs.push_back({"malformed-address", e});
+    // expressions that no assembler syntax gives a meaning (outside the documented shapes [base + index*scale +- offset], [base + scale*index +- offset], [scale*index +- offset], [constant])
+    for (auto e : {"[]", "[*]", "[+]", "[-]", "[*rcx]", "[*rcx+8]", "[rcx*]", "[rax+]", "[rax-]", "[-rax]", "[rax+rbx+rcx]", "[rax+rbx+rcx+8]", "[rax+rbx*2+1*rcx]", "[rax+0x]", "[rax+12ab]", "[rax+0x12g]", "[0x]", "[12ab]", "[rax]]", "[[rax]", "[rax+[rbx]]", "[rax,rbx]", "[rax+rbx*]", "[rax+*rbx]", "[rax+r9*+8]",
+                   "[rax-rbx]", "[rax+rbx-rcx]", "[rax+2*]", "[rax+*2]", "[1*]", "[rax+8*]", "[eax+ebx+ecx]", "[r8d+]", "[-eax]", "[rax*rbx]", "[rax+rbx*rcx]", "[2*rsp*2]", "[rax+3*rbx*2]"}) exprs.push_back({"malformed-address", e});
     for (auto &h : hosts) for (auto &e : exprs) {
       std::string host0 = h[0];
       if (e.first == "unclosed-bracket" && std::string(h[1]) != "") continue; // keep the bracket unclosed up to the end of line
@@ -230,6 +231,25 @@ void prop_c10(hz::Ctx &ctx) {
     }
     // unclosed bracket followed by another operand
     for (auto l : {"mov [rax, rbx", "add [rcx+8, 5", "mov qword [rdx, 1", "vmovdqu [rax, ymm1"}) { RejCase c; c.group = "unclosed-bracket"; c.mn = "mov"; c.form = l; c.bad = l; run_rej(ctx, c, rng, allp); }
+  }
+  // ---- (4b) shapes this library does not document but which have one meaning in every assembler syntax: they are rejected, or encoded with that meaning
+  {
+    struct Alt { const char *expr; int base, index, scale; long long disp; int asize; };
+    static const Alt ALT[] = {{"[rax+8+8]", 0, -1, 1, 16, 64}, {"[rax+8-8]", 0, -1, 1, 0, 64}, {"[8+rax]", 0, -1, 1, 8, 64}, {"[0x10+rax+rbx]", 0, 3, 1, 0x10, 64}, {"[2*rax+rbx]", 3, 0, 2, 0, 64}, {"[rax*2+rbx]", 3, 0, 2, 0, 64}, {"[rax*2*2]", -1, 0, 4, 0, 64}, {"[2*2*rax]", -1, 0, 4, 0, 64},
+      {"[rax+rbx*2*2]", 0, 3, 4, 0, 64}, {"[rax+2*rbx*2]", 0, 3, 4, 0, 64}, {"[esp+8+8]", 4, -1, 1, 16, 32}, {"[+rax]", 0, -1, 1, 0, 64}, {"[rax++8]", 0, -1, 1, 8, 64}, {"[rax--8]", 0, -1, 1, 8, 64}, {"[rax-+8]", 0, -1, 1, -8, 64}, {"[rax+-8]", 0, -1, 1, -8, 64}, {"[rcx*4+8]", -1, 1, 4, 8, 64}, {"[rbx+rcx+8+8]", 3, 1, 1, 16, 64}, {"[8+2*rcx]", -1, 1, 2, 8, 64}, {"[r9*8]", -1, 9, 8, 0, 64}};
+    for (auto &al_ : ALT) for (int host = 0; host < 3; host++) for (int combo = 0; combo < 12; combo += 1) {
+      if (!ctx.take()) continue;
+      std::string line = std::string(host == 0 ? "mov rax, " : host == 1 ? "lea r15, " : "vmovdqu ymm1, ") + al_.expr; std::string id = "RA|" + std::to_string(combo) + "|" + std::to_string(host) + "|" + al_.expr;
+      if (!ctx.begin(id, line)) continue;
+      ctx.cls("group:unsupported-shape"); ctx.nontrivial(id);
+      al::Result r = al::assemble(line, combo); std::string why;
+      if (r.rc != 0) { if (r.wrote_on_failure) why = "rejected but bytes were written"; }
+      else { x86::Insn g = x86::decode(r.bytes.data(), r.bytes.size()); Intent it; it.mn = host == 0 ? "mov" : host == 1 ? "lea" : "vmovdqu"; it.cls = host == 2 ? "avx" : "mov"; it.size = host == 2 ? 0 : 64; WMem m; m.base = al_.base; m.index = al_.index; m.scale = al_.scale; m.has_disp = true; m.disp = al_.disp; m.asize = al_.asize; m.width = host == 0 ? 64 : host == 1 ? 0 : 256;
+        it.ops = {host == 0 ? wgpr(0, 64) : host == 1 ? wgpr(15, 64) : wvec(K_YMM, 1), wmem(m)}; spec::Opts o = combo_opts(combo); o.swap = 1; o.nobase = 1; auto want = expect(it, o); std::string w2; bool same = g.ok && (size_t)g.len == r.bytes.size() && x86::same_insn(want[0], g, &w2);
+        if (!same) why = "accepted as " + x86::hex(r.bytes.data(), r.bytes.size()) + " = '" + (g.ok ? x86::to_string(g) : std::string("undecodable")) + "' ; the expression can only mean '" + x86::to_string(want[0]) + "'"; }
+      if (ctx.want_sample()) ctx.put_sample("\"" + line + "\" -> " + (r.rc ? "rejected" : why.empty() ? "encoded with its one meaning" : why));
+      if (!why.empty()) { hz::Failure f; f.caseid = id; f.text = line + "    [unsupported-shape, " + combo_name(combo) + "]"; f.symptom = "accepted-as-something-else"; f.detail = why; f.tags = {"group:unsupported-shape", "mn:" + it_mn(host), "form:" + std::string(al_.expr), "sym:accepted-as-something-else"}; ctx.fail(f); }
+    }
   }
   // ---- (5) empty operand (first / middle), operand after an immediate ----
   {
@@ -273,6 +293,8 @@ void prop_c10(hz::Ctx &ctx) {
 }
 
 int replay_reject(const std::string &caseid) {
+  if (caseid.compare(0, 3, "RA|") == 0) { auto f = split(caseid, '|'); if (f.size() != 4) return 2; int combo = atoi(f[1].c_str()), host = atoi(f[2].c_str()); std::string line = std::string(host == 0 ? "mov rax, " : host == 1 ? "lea r15, " : "vmovdqu ymm1, ") + f[3];
+    al::Result r = al::assemble(line, combo); printf("%s [%s]: rc=%d %s\n", line.c_str(), combo_name(combo).c_str(), r.rc, x86::hex(r.bytes.data(), r.bytes.size()).c_str()); if (r.rc != 0) { printf("OK (rejected)\n"); return 0; } x86::Insn g = x86::decode(r.bytes.data(), r.bytes.size()); printf("accepted as '%s' (compare with the written expression)\n", g.ok ? x86::to_string(g).c_str() : "undecodable"); return 1; }
   auto f = split(caseid, '|'); if (f.size() < 8 || f[0] != "R") return 2;
   RejCase c; c.combo = atoi(f[1].c_str()); c.mode = atoi(f[2].c_str()); c.place = atoi(f[3].c_str()); c.group = f[4]; c.mn = f[5]; c.form = f[6]; c.bad = fromhex(f[7]);
   RejVerdict v = check_reject(c);
